@@ -23,6 +23,33 @@ def mc(ctx, scripts, name, guards, expect="ok", properties=("Terminates",)):
                    invariants=INVS, properties=list(properties), workers=6, timeout=900)
 
 
+def scheduler_stage(ctx):
+    """The clause 'a validation result that predates a rewind covering it can never make its transaction eligible for
+    finality' needs the transaction locks, timestamps and the finality loop: Grevm.tla (invariant FinalityFresh, guards
+    GTsBeforeScan / GFinTs / GFinCarry / GRewindNew / GRewindConflict) and the real scheduler under the controller."""
+    import sched_engine as se
+    quick = ctx.quick()
+    if quick:
+        se.mc(ctx, ["chain2", "rmw3", "grow_shrink3"], "sched_sim", simulate=250, depth=800, timeout=400,
+              invariants=["TypeOK", "FinalityFresh", "CommittedReadsFresh", "CommitMatchesRef"])
+    else:
+        se.mc(ctx, ["chain2"], "sched_mc_chain2", invariants=["TypeOK", "FinalityFresh", "CommittedReadsFresh", "CommitMatchesRef"], tlc_workers=12, timeout=3000)
+        se.mc(ctx, ["rmw3", "grow_shrink3", "dd3"], "sched_sim", simulate=20000, depth=900, timeout=2400,
+              invariants=["TypeOK", "FinalityFresh", "CommittedReadsFresh", "CommitMatchesRef"])
+    w = se.witness(ctx, "GRewindNew", "chain2", regenerate=False)
+    ctx.guards["GRewindNew"] = (f"load-bearing on chain2: {w['invariant']} at depth {w['depth']}" if w["found"] else "no counterexample on chain2")
+    if not w["found"]:
+        raise ToolError("vacuity: without the rewind after a write-set expansion nothing is violated on chain2")
+    se.replay_witness(ctx, w, "C15", also=("C01", "C02"), extra_runs=4 if quick else 30)
+    names = ["chain2", "rmw3", "grow_shrink3", "dd3", "invalid_then_valid3"]
+    for workers in (2, 3):
+        r, out, args = se.controlled(ctx, names, 30 if quick else 1500, workers=workers, tag=f"sched_w{workers}")
+        se.report(ctx, r, args, "C15", also=("C01", "C02"))
+        se.validate(ctx, r, out, f"sched_trace_w{workers}", workers=workers)
+    ctx.assumptions += ["scheduler level: every recorded run is validated against Grevm.tla with FinalityFresh evaluated after every step: the timestamp taken before the "
+                        "read-set scan, the own and the carried rewind timestamp at every finality decision are logged and must equal the specification's"]
+
+
 def run(ctx):
     scripts = json.load(open(os.path.join(SPEC, "cursor_scripts.json")))
     small = [s for s in scripts if s["name"] != "three_claimers"] if ctx.quick() else scripts
@@ -73,12 +100,7 @@ def run(ctx):
         if not n:
             continue
         ok, where, tres = ctx.validate_trace("CursorTrace", path, name, consts, invariants=TRACE_INVS)
-        if not ok:
-            if tres["invariant"]:
-                ctx.violation(f"invariant {tres['invariant']} fails on a recorded cursor run",
-                              {"kind": "cursor_trace", "trace": path, "at": where})
-            else:
-                raise ToolError(f"conformance drift: cursor trace not a behaviour of Cursor.tla: {where}")
+        ctx.trace_verdict(ok, where, tres, "CursorTrace", path, consts, TRACE_INVS, "Cursor.tla")
         ctx.traces += n
         ctx.trace_events += ev
     # 4. binding demonstration
@@ -92,7 +114,7 @@ def run(ctx):
             if ok:
                 raise ToolError(f"binding demonstration failed: trace with {what} was accepted")
         ctx.notes["binding_demo"] = demo
+    scheduler_stage(ctx)
     ctx.notes["not_covered"] = ("weak-memory reorderings permitted by the declared orderings are NOT explored: the model and "
-                                "the controller are sequentially consistent. The clause 'a validation that predates a covering "
-                                "rewind never becomes eligible for finality' needs the transaction locks and is decided in Grevm.tla (C02).")
+                                "the controller are sequentially consistent.")
     ctx.assumptions += ["sequentially consistent memory", "scripts in spec/cursor_scripts.json (3-4 indices, up to 3 claimers, 2 rewinders, 3 publishers)"]
